@@ -641,7 +641,7 @@ func (x *Exec) havocCall(st *State, cc *ssa.CallCommon, what string) {
 	eff := newEffects()
 	x.unknownEffects(cc, eff)
 	if eff.All || len(eff.Keys) > 0 {
-		x.havocEffects(st, x.protect(eff), "call")
+		x.havocEffectsK(st, x.protect(eff), "call", true)
 	}
 	x.havocked[what] = true
 }
@@ -944,6 +944,10 @@ func (x *Exec) builtin(fr *frame, st *State, f *ssa.Builtin, cc *ssa.CallCommon,
 		}
 		return []Val{freshVal(x.c, "cap", types.Typ[types.Int])}
 	case "append":
+		if sl, ok := cc.Args[0].Type().Underlying().(*types.Slice); ok && carrierType(sl.Elem()) && len(args) > 1 {
+			// the appended references now live in the destination's backing store
+			x.noteEscapes(args[1:])
+		}
 		if r, ok := x.preciseAppend(st, cc, args, reach); ok {
 			return []Val{r}
 		}
@@ -965,10 +969,26 @@ func (x *Exec) builtin(fr *frame, st *State, f *ssa.Builtin, cc *ssa.CallCommon,
 		x.c.Assume(Op("bvsle", SBool, n, cp))
 		return []Val{{T: rt, L: []Term{id, n, cp}}}
 	case "copy":
+		if sl, ok := cc.Args[0].Type().Underlying().(*types.Slice); ok && carrierType(sl.Elem()) && len(args) > 1 {
+			x.noteEscapes(args[1:])
+		}
 		if sl, ok := cc.Args[0].Type().Underlying().(*types.Slice); ok {
-			eff := newEffects()
-			eff.Keys["slice:"+typeKey(sl.Elem())+"|"] = true
-			x.havocEffects(st, eff, "copy")
+			if len(args) > 0 && len(args[0].L) == 3 {
+				// copy writes into the destination's backing store only: that store
+				// gets arbitrary content, every other store keeps its own
+				x.inst++
+				for _, l := range shape(sl.Elem()) {
+					key := sliceKey(sl.Elem(), l.Path)
+					srt := SArr(SBV(64), SArr(SBV(64), l.Sort))
+					h := x.heapGet(st, key, srt)
+					row := x.c.Fresh(fmt.Sprintf("copyrow_%d", x.inst), SArr(SBV(64), l.Sort))
+					x.heapSet(st, key, Store(h, args[0].L[0], row))
+				}
+			} else {
+				eff := newEffects()
+				eff.Keys["slice:"+typeKey(sl.Elem())+"|"] = true
+				x.havocEffects(st, eff, "copy")
+			}
 		}
 		return []Val{freshVal(x.c, "copied", types.Typ[types.Int])}
 	case "delete":
@@ -1121,7 +1141,7 @@ func (x *Exec) applyContract(ct *Contract, f *ssa.Function, sig *types.Signature
 	if ct.HasAssigns {
 		x.havocAssigns(ct, f, env, st)
 	} else if eff.All || len(eff.Keys) > 0 {
-		x.havocEffects(st, x.protect(eff), "ct")
+		x.havocEffectsK(st, x.protect(eff), "ct", true)
 	}
 	for g := range eff.Ghosts {
 		if gv, ok := st.ghost[g]; ok {
@@ -1170,6 +1190,9 @@ var wantSiteCovers = false
 func (x *Exec) inScope(cl *Clause) bool {
 	for _, n := range cl.Scope {
 		found := false
+		if x.top != nil && x.top.Pkg != nil && x.top.RelString(x.top.Pkg.Pkg) == n {
+			found = true // scoped to one calling function by name
+		}
 		if x.top != nil {
 			for _, p := range x.top.Params {
 				if p.Name() == n {
@@ -1269,7 +1292,7 @@ func (x *Exec) havocAssigns(ct *Contract, f *ssa.Function, env *specEnv, st *Sta
 		if !ok {
 			eff := newEffects()
 			x.assignExprEffects(ct, a, eff, f)
-			x.havocEffects(st, eff, "asg")
+			x.havocEffectsK(st, eff, "asg", true)
 			continue
 		}
 		fresh := freshVal(x.c, "asg", addr.FT)
@@ -1353,7 +1376,7 @@ func (x *Exec) havocMapEntry(st *State, mt types.Type, ref, key Term) {
 	if !ok {
 		eff := newEffects()
 		eff.Keys["map:"+typeKey(mt)+"|"] = true
-		x.havocEffects(st, eff, "mapasg")
+		x.havocEffectsK(st, eff, "mapasg", true)
 		return
 	}
 	x.heapSet(st, hasKey, Store(has, ref, Store(Select(has, ref), key, x.c.Fresh("asg_has", SBool))))
